@@ -28,7 +28,7 @@ Proof.
   - apply good_at_set; auto. intro. apply good_weaken. apply good_insert; auto.
   - apply good_at_set; auto. intro. apply good_weaken. apply good_setitem; auto.
   - apply good_at_set; auto. intro. apply good_setslice; auto.
-  - apply good_at_set; auto. intro. apply good_weaken. apply good_delslice; auto.
+  - apply good_at_set; auto. intro. apply good_weaken. apply good_delitem; auto.
   - apply good_at_set; auto. intro. apply good_weaken. apply good_delslice; auto.
   - apply good_construct; auto.
   - apply good_at_set; auto. intro. apply good_set_value; auto.
@@ -57,7 +57,7 @@ Proof.
   - refine (proj2 (proj2 (good_at_set s r _ true _ I)) eq_refl E). intro. apply good_pop_at; auto.
   - refine (proj2 (proj2 (good_at_set s r _ true _ I)) eq_refl E). intro. apply good_insert; auto.
   - refine (proj2 (proj2 (good_at_set s r _ true _ I)) eq_refl E). intro. apply good_setitem; auto.
-  - refine (proj2 (proj2 (good_at_set s r _ true _ I)) eq_refl E). intro. apply good_delslice; auto.
+  - refine (proj2 (proj2 (good_at_set s r _ true _ I)) eq_refl E). intro. apply good_delitem; auto.
   - destruct (rename c s e (option_map KName k)) as [s' o] eqn:R. simpl in *.
     destruct o as [|v|x]; try discriminate. eapply rename_atomic; eauto.
   - apply (proj2 (proj2 (good_owner_add c s o e I)) eq_refl E).
